@@ -94,6 +94,17 @@ def execute(pool, c):
 APPENDS = ("Mul", "Div", "FloorDiv", "Add", "Sub", "Pow")
 
 
+def execute_array(pool, c):
+    """The call on Arrays; Array has no ** operator: a power is the n-fold product."""
+    if c["op"] == "Pow":
+        a = pool[c["i"] - 1]
+        r = a
+        for _ in range(c["n"] - 1):
+            r = r * a
+        return r
+    return execute(pool, c)
+
+
 def replay(t, rep, env, stats):
     from barril.units import Quantity, Scalar
 
@@ -190,6 +201,48 @@ def replay(t, rep, env, stats):
     if diffs:
         rep.violation({"check": "outcome", "op": last["op"], "program": key}, {"diff": diffs[:6]})
         stats["bad"] += 1
+    # ---- the same program on Arrays (element by element): a numpy-backed and a list-backed pool, every element equal to the
+    # Scalar's amount; the last call is executed twice (an operand changed in place shows in the second result)
+    if ok and last["op"] in APPENDS and stats["replayed"] % 2 == 0 and not diffs:
+        import numpy
+        from barril.units import Array
+        want_val = pool[-1].GetValue()
+        want_q = pool[-1].GetQuantity()
+        for kind in ("ndarray", "list"):
+            mk = (lambda v: numpy.array([v, v])) if kind == "ndarray" else (lambda v: [v, v])
+            try:
+                apool = []
+                vals = [2.0, 3.0, 5.0, 7.0]
+                for k, r in enumerate(t["init"]):
+                    a = Array(mk(vals[2 * k]), r["a"][1], r["a"][0])
+                    if r["op"]:
+                        b = Array(mk(vals[2 * k + 1]), r["b"][1], r["b"][0])
+                        a = a * b if r["op"] == "Mul" else a / b
+                    apool.append(a)
+                for c in h[:-1]:
+                    if c["op"] in APPENDS:
+                        apool.append(execute_array(apool, c))
+                before = [[float(z) for z in x.GetAbstractValue()] for x in apool]
+                r1 = execute_array(apool, last)
+                r2 = execute_array(apool, last)
+                v1 = [float(z) for z in r1.GetAbstractValue()]
+                v2 = [float(z) for z in r2.GetAbstractValue()]
+                tol = 1e-9 * max(abs(want_val), scale, 1e-300) if last["op"] != "FloorDiv" else 1.0 + 1e-9 * abs(want_val)
+                adiff = []
+                if any(abs(z - want_val) > tol for z in v1):
+                    adiff.append("Array[%s] elements %r, the Scalars give %r" % (kind, v1, want_val))
+                if any(abs(a_ - b_) > 1e-12 * max(abs(a_), abs(b_), 1e-300) for a_, b_ in zip(v1, v2)):
+                    adiff.append("Array[%s]: the same operation repeated gives %r then %r" % (kind, v1, v2))
+                if not (r1.GetQuantity() == want_q):
+                    adiff.append("Array[%s] result quantity differs from the Scalar result" % kind)
+                if [[float(z) for z in x.GetAbstractValue()] for x in apool] != before:
+                    adiff.append("Array[%s]: an operand's values changed" % kind)
+                if adiff:
+                    rep.violation({"check": "the program on Arrays", "op": last["op"], "program": key}, {"diff": adiff})
+                    stats["bad"] += 1
+            except Exception as e:  # noqa
+                rep.violation({"check": "the program on Arrays raised", "op": last["op"], "program": key, "container": kind}, {"exc": type(e).__name__, "msg": str(e)[:200]})
+                stats["bad"] += 1
     # ---- monitors
     for k, x in enumerate(pool[:len(snap_pool)]):
         if v_snapshot(x) != snap_pool[k]:
